@@ -205,6 +205,10 @@ func (g *game) Pass(playerIdx int) (*pokerface.GameState, error) {
 		return g.GetGameState(), err
 	}
 
+	if !g.gs.HasAction(playerIdx, "pass") {
+		return g.GetGameState(), ErrGameInvalidAction
+	}
+
 	gs, err := g.backend.Pass(g.gs)
 	if err != nil {
 		return g.GetGameState(), err
